@@ -494,7 +494,7 @@ func runHistory(k ops.Kind, n int) Case {
 // a power of two (where buffers grow or are flushed), each with its neighbours, and every length
 // up to 70; thorough tier: every length up to 4200.
 func TestRunLengths(t *testing.T) {
-	st := harness.Counter("run-lengths", "one run of n calls of one verb (H, L, Q, C, A: 1, 2, 4, 6, 5+flags operands per call, operands differing from call to call) followed by another verb: accepted, and decodes to exactly the history; quick: n <= 70 and n around every operand count 2^k <= 2^14; thorough: every n <= 4200")
+	st := harness.Counter("run-lengths", "one run of n calls of one verb (H, L, Q, C, A: 1, 2, 4, 6, 5+flags operands per call, operands differing from call to call) followed by another verb: accepted, and decodes to exactly the history; quick: n <= 70, n around every operand count 2^k <= 2^14, and for H and L n around 2^15 and 2^16; thorough: every n <= 4200")
 	verbs := []ops.Kind{ops.RelHLineTo, ops.AbsLineTo, ops.RelQuadTo, ops.AbsCubeTo, ops.RelArcTo}
 	nargs := []int{1, 2, 4, 6, 6}
 	var lens [][2]int // verb index, n
@@ -521,6 +521,12 @@ func TestRunLengths(t *testing.T) {
 						seen[n] = true
 					}
 				}
+			}
+		}
+		if vi <= 1 {
+			// ... and the lengths at which a 16-bit count of calls (or, for lines, of operands) wraps
+			for _, n := range []int{32767, 32768, 32769, 65535, 65536, 65537} {
+				seen[n] = true
 			}
 		}
 		for n := range seen {
@@ -590,6 +596,10 @@ func genCall(t *rapid.T, drawing bool) Call {
 		pal := ops.DefaultPalette()
 		if rapid.Bool().Draw(t, "pal") {
 			pal[0] = color.RGBA{0x10, 0x20, 0x30, 0x40}
+			if rapid.Bool().Draw(t, "palmix") {
+				// any valid suggested palette (entries of every width in any order)
+				pal = gen.Palette(t, "palmix", true)
+			}
 		}
 		o := ops.OpReset(gen.VB(vb), [64]color.RGBA(pal))
 		if rapid.IntRange(0, 5).Draw(t, "zerometa") == 0 {
